@@ -167,7 +167,8 @@ def census_diff():
 
 
 # what a run has to contain to count as the run the evidence describes (per 100 000 requested cases)
-KIND_FLOORS = {"K": 100, "W": 800, "T": 5000, "U": 8000, "M": 20000, "C": 2000, "R": 5000, "P": 2000, "S": 1000}
+KIND_FLOORS = {"K": 100, "W": 800, "T": 5000, "U": 8000, "M": 20000, "C": 2000, "R": 5000, "P": 2000, "S": 1000,
+               "Q": 2000, "F": 2000}
 NOTRUN_CAP = 20
 
 
@@ -177,7 +178,7 @@ def post(lines, verdicts):
            for d in census_diff()]
     if len(lines) < 5000:          # a replay
         return out
-    kinds, ok_frames, typed_ok, typed_err, tablets_ok, small_ok = {}, 0, 0, 0, 0, 0
+    kinds, ok_frames, typed_ok, typed_err, tablets_ok, small_ok, tuple_ok, tuple_err = {}, 0, 0, 0, 0, 0, 0, 0
     for ln in lines:
         k = ln.split(" ", 1)[0]
         kinds[k] = kinds.get(k, 0) + 1
@@ -186,6 +187,8 @@ def post(lines, verdicts):
         typed_ok += " tv=ok" in impl
         typed_err += " tv=err@" in impl
         tablets_ok += " tb=ok:" in impl
+        tuple_ok += bool(re.search(r" tv=\S*,t[1-5]:ok", impl))
+        tuple_err += bool(re.search(r" tv=\S*,t[1-5]:err@", impl))
         small_ok += impl.rstrip().endswith("s=ok")
     scale = min(1.0, len(lines) / 100000.0)
     for k, floor in KIND_FLOORS.items():
@@ -195,6 +198,7 @@ def post(lines, verdicts):
     for name, got, need in (("frames decoded successfully", ok_frames, int(10000 * scale)),
                             ("typed rows ok", typed_ok, int(500 * scale)), ("typed rows failing", typed_err, int(300 * scale)),
                             ("tablet payloads accepted", tablets_ok, int(200 * scale)),
+                            ("typed tuple targets ok", tuple_ok, int(200 * scale)), ("typed tuple targets failing", tuple_err, int(50 * scale)),
                             ("second run on the small stack", small_ok, int(0.95 * len(lines)))):
         if got < need:
             out.append(("diff", "coverage " + name, f"diff coverage-floor {name}: {got} < {need}"))
@@ -250,9 +254,13 @@ SPEC = {
              "offsets, +-1, bit flips, header fields, insert/delete, random runs); C = LZ4/Snappy-compressed variants and "
              "their mutations / wrong codec; R = random bytes, plain and behind a valid header; P = a PREPARED frame followed by a "
              "Rows frame decoded with the first one's result metadata as cached_metadata (skip-metadata path), cuts and mutations; "
-             "S = custom-type strings through every branch of the string parser and 40 character-level damages of each. "
+             "S = custom-type strings through every branch of the string parser and 40 character-level damages of each; "
+             "Q = two consecutive frames (whole / cut / first one mutated) delivered by a custom AsyncRead in chunks "
+             "(1 byte at a time, 8+1+1+3, 9+1+rest, all at once, random 1..5, random 1..64), the first decoded, then the header class / rest of a second read_response_frame on the same reader compared; "
+             "F = mutations derived from the extracted encoder: one length / count / id / flag field of the AST re-encoded with a boundary value or off by one. "
              "On every accepted frame also: "
-             "typed rows (rows_iter::<Row>() over CqlValue, position of the first failure) and the tablet routing payload "
+             "typed rows (rows_iter::<Row>() over CqlValue, position of the first failure; and the first of five typed tuple targets "
+             "whose type_check accepts the columns) and the tablet routing payload "
              "(RawTablet::from_custom_payload via hook H6). non-trivial = every case; "
              "distinct = distinct case lines"),
     "nontrivial": lambda ln: True,
